@@ -20,9 +20,9 @@ CLAIMED = {
     text="Every machine the current compiler accepts (corpus + generated programs, several -O levels) is exported structurally and must pass NoSpin.nospin_cert; its Coq soundness theorems (no_spin_step, no_spin_feed, yield_progress) give termination of every feed/end call within a bound linear in the chunk, for every state, symbol and data value under every data semantics, and no endless run of yields without progress. A rejected certificate yields a (state, symbol) cycle and an input reaching it.",
     note="Program quantifier sampled. Trusted: Coq kernel; harness/export.py; Machine/Sem.v as the reading of the emitted C control skeleton (tied by the C06 correspondence); extraction+OCaml for the volume tier (a sample is re-certified inside Coq).",
     ref="5 C04"),
- "C05": dict(cat="translation_validation", tech="Coq-verified bisimulation certificate checkers between machines compiled at different levels/flags",
-    text="For each program the machine compiled with all optimisations off is compared with the machines compiled at -O1/-O2 and with each single optimisation flag by a strict bisimulation certificate (Bisim.dfa_equiv_cert), sound for all inputs and every data semantics (bisim_strict_sound): identical sequences of primitives, tests, yields, finishes, consumed-byte markers and results.",
-    note="Program quantifier sampled. The short-circuit pass (-O3), which may legally move actions by one position, needs the buffered relation (BBisim) and is only covered once that is built; `s = \"\"` and `delete s` are identified when comparing across -fuse-delete-for-empty-string. Trusted as for C04.",
+ "C05": dict(cat="translation_validation", tech="Coq-verified strict and one-step-buffered bisimulation certificate checkers between machines compiled at different levels/flags",
+    text="For each program the machine compiled with all optimisations off is compared with the machines compiled at -O1/-O2 and with each single non-short-circuit flag by a strict bisimulation certificate (Bisim.dfa_equiv_cert: identical sequences of primitives, tests, yields, finishes, consumed-byte markers and results on all inputs, every data semantics) and with the machines compiled at -O3 / -fshortcircuit-fallthroughs by a one-step-buffered certificate (BSearch.dfa_slack_cert, soundness BBisim.bbisim_sound): the short-circuited machine may be ahead by byte-independent primitives / test outcomes and by one early return, which the lazy machine must perform first thing on the next symbol; un-timed traces agree on all inputs for every data semantics in which the flagged items really are byte-independent. Binaries built at -O0/-O2/-O3 under a random representation option set are additionally run differentially (hooks with snapshots, yield/finish codes, final outputs).",
+    note="Program quantifier sampled. `s = \"\"` and `delete s` are identified across -fuse-delete-for-empty-string. The byte-independence flags of primitives come from the exporter (expression mentions $last / is an append). One genuine defect is listed as a known finding (a yield on the transition that completes the program keeps the cursor one byte earlier at -O3). Trusted as for C04.",
     ref="5 C05"),
  "C06": dict(cat="model_checking", tech="exhaustive forced-state single-step and two-byte-chunk correspondence between the gcc-built parser and the extracted Coq model of the exported machine",
     text="C06 is a statement about the tie between emitted text and compiled machine, so it is decided by an exhaustive per-program correspondence: every state index x every byte 0..255 (and end-of-input) x several data contexts is stepped once in the gcc-built binary (state forced) and in the extracted Coq model (CSkel.Run over Machine.Sem, the same executable definitions all control-flow theorems are about), plus two-byte chunks from every state and random chunked runs; result code, new state, consumed count, every output's contents/length/terminator and the hook calls with their snapshots are compared. Coq lemmas (ceval_tree_eval, cfeed_go_feed_go) tie the concrete runner to the generic semantics; store_inv_prim proves the capacity invariant for every primitive.",
